@@ -122,6 +122,23 @@ where
         Err(Error::EdgeNotFound)
     }
 
+    /// Handles to all nodes this node shares an edge with.
+    pub fn neighbours(&self) -> Vec<Node<K, N, E>> {
+        self.outbound
+            .iter()
+            .chain(self.inbound.iter())
+            .map(|edge| edge.0.upgrade().unwrap())
+            .collect()
+    }
+
+    /// Removes every edge shared with the node with the given key.
+    pub fn remove_all(&mut self, node: &K) {
+        self.outbound
+            .retain(|edge| edge.0.upgrade().unwrap().key() != node);
+        self.inbound
+            .retain(|edge| edge.0.upgrade().unwrap().key() != node);
+    }
+
     pub fn clear_inbound(&mut self) {
         self.inbound.clear();
     }
